@@ -573,7 +573,8 @@ class _FragmentCompiler:
                     emitter.append(f"if {rst}:")
                     with emitter.indent():
                         emitter.append("pass")
-                        for (signal, _) in lhs_masks.masks():
+                        # Only registers are reset; a memory read port holds its output (`$memrd_v2` has no reset).
+                        for (signal, _) in reg_masks.masks():
                             if not signal.reset_less:
                                 signal_index = self.state.get_signal(signal)
                                 emitter.append(f"next_{signal_index} = {signal.init}")
